@@ -29,8 +29,9 @@ class K:
 
 
 class M:
-    def __init__(self, key, wires, invert_mask=(), confusion=None):
+    def __init__(self, key, wires, invert_mask=(), confusion=None, invert_first=False):
         self.key, self.wires = key, tuple(wires)
+        self.invert_first = invert_first  # only used to *explain* a known wrong order, never as the specification
         self.invert_mask = tuple(bool(b) for b in invert_mask)
         self.confusion = dict(confusion or {})  # {tuple(indices into wires): row-stochastic matrix}
 
@@ -95,6 +96,10 @@ def _apply(step, rec, rho, dims):
             P[i, i] = 1
             r2 = L.apply_to_rho(rho, [P], step.wires, dims)
             if abs(np.trace(r2)) < 1e-15:
+                continue
+            if step.invert_first:
+                for rep, q in _confuse(_invert(digs, step.invert_mask), dm, step.confusion).items():
+                    yield rec + ((step.key, rep),), r2 * q
                 continue
             for rep, q in _confuse(digs, dm, step.confusion).items():
                 yield rec + ((step.key, _invert(rep, step.invert_mask)),), r2 * q
